@@ -259,6 +259,19 @@ def rules(ctx: Ctx) -> None:
                         stores.append(n)
                 if isinstance(n, ast.Call) and isinstance(n.func, ast.Attribute) and n.func.attr in ("setdefault", "update", "append", "add") and is_self_attr(n.func.value):
                     stores.append(n)
+            # ... nor may it change in place what the source or the session store handed out (the list may be the provider's own catalogue entry)
+            for n in prog.walk_fn(m):
+                tgt = None
+                if isinstance(n, ast.AugAssign) and isinstance(n.target, ast.Name):
+                    tgt = n.target
+                elif isinstance(n, ast.Call) and isinstance(n.func, ast.Attribute) and n.func.attr in ("append", "extend", "insert", "remove", "pop", "clear", "sort", "reverse", "update", "add") and isinstance(n.func.value, ast.Name):
+                    tgt = n.func.value
+                if tgt is None:
+                    continue
+                shared = [v for v in prog.value_sources(m, ast.Name(id=tgt.id, ctx=ast.Load()))
+                          if (isinstance(v, ast.Call) and is_self_attr(v.func)) or (isinstance(v, ast.Subscript) and is_self_attr(v.value)) or (isinstance(v, ast.Call) and isinstance(v.func, ast.Attribute) and v.func.attr == "get" and is_self_attr(v.func.value))]
+                if shared:
+                    stores.append(n)
             ctx.ob("R13.5", f"lookup-has-no-memory:{k.name}.{mname}", not stores and not any("cache" in d for d in m.decorators), m.loc(),
                    f"{k.name}.{mname} must answer from the session store and the provider's source only" + (f" (`{u(prog.enclosing_stmt(stores[0]))[:60]}` keeps state across calls)" if stores else ""))
         for nm, val in k.consts.items():
@@ -281,6 +294,9 @@ def rules(ctx: Ctx) -> None:
     from .common import import_rules
 
     import_rules(ctx, "C12", {"R12.1": "R13.6"})
+    # ---- R13.7 / R13.8: what the session learns is what the statement wrote, wildcards excluded (= R04.2: a registered `*` makes an unknown
+    # table look known); the late repair handles every (unresolved column, target) pair (= R04.3)
+    import_rules(ctx, "C04", {"R04.2": "R13.7", "R04.3": "R13.8"}, key_filter=lambda o: o.rule == "R04.2" or o.key.startswith("repair:"))
 
 
 def _column_named(call: ast.Call) -> bool:
